@@ -82,7 +82,98 @@ def standin_collector_schedules(tier, seed):
                 bound="4 jobs of 10 repetitions x 5 batch shapes of next_job() x concurrency 1..3 x budgets {None,5,10,20,25,40} x 4 (quick) / all 24 (thorough) completion orders",
                 cases=cases, distinct=cases, failures=len(fails), exhaustive=(tier == "thorough"), _fails=fails[:4])
 standin_collector_schedules.prop = "C20"
-STANDINS = [standin_collector_schedules]
+def standin_sampler_limiter(tier, seed):
+    """ProcessorSampler(max_concurrent_jobs): jobs whose results arrive late, every completion order of <= 4 jobs x limits 1..3,
+    run_async and run_batch_async: never more than the limit in flight on the backend, every caller gets its own result once"""
+    import duet
+    import numpy as np
+
+    import cirq
+    import cirq_google
+
+    cases, fails = 0, []
+
+    def run(n_jobs, limit, order, batch):
+        state = dict(open=[], max_open=0)
+
+        class Job:
+            def __init__(self, tag):
+                self.tag, self.done = tag, duet.AwaitableFuture()
+
+            async def results_async(self):
+                await self.done
+                state["open"].remove(self)
+                return [cirq.ResultDict(params=cirq.ParamResolver({}), measurements={"tag": np.array([[self.tag]])})]
+
+        class Proc:
+            async def run_sweep_async(self, program, params=None, repetitions=1, **kw):
+                job = Job(max(q.x for q in program.all_qubits()))
+                state["open"].append(job)
+                state["max_open"] = max(state["max_open"], len(state["open"]))
+                return job
+
+        sampler = cirq_google.ProcessorSampler(processor=Proc(), max_concurrent_jobs=limit)
+        got = {}
+        circ = lambda t: cirq.Circuit(cirq.X(cirq.LineQubit(t)), cirq.measure(cirq.LineQubit(t), key="m"))
+
+        async def caller(t):
+            r = await sampler.run_async(circ(t), repetitions=1)
+            got.setdefault(t, []).append(int(r.measurements["tag"][0][0]))
+
+        async def batch_caller():
+            rs = await sampler.run_batch_async([circ(t) for t in range(n_jobs)])
+            for t, r in enumerate(rs):
+                got.setdefault(t, []).append(int(r[0].measurements["tag"][0][0]))
+
+        async def driver():
+            finished, step = 0, 0
+            while finished < n_jobs:
+                for _ in range(3):
+                    await duet.sleep(0.0005)
+                if not state["open"]:
+                    continue
+                job = state["open"][order[step % len(order)] % len(state["open"])]
+                step += 1
+                finished += 1
+                job.done.set_result(None)
+
+        async def main():
+            async with duet.timeout_scope(10):
+                async with duet.new_scope() as scope:
+                    if batch:
+                        scope.spawn(batch_caller)
+                    else:
+                        for t in range(n_jobs):
+                            scope.spawn(caller, t)
+                    scope.spawn(driver)
+
+        duet.run(main)
+        if state["max_open"] > limit:
+            return f"{state['max_open']} jobs were in flight on the backend although max_concurrent_jobs={limit}"
+        if got != {t: [t] for t in range(n_jobs)}:
+            return f"callers received {got} instead of their own result exactly once"
+        return None
+
+    for n_jobs in (2, 3, 4):
+        for limit in (1, 2, 3):
+            orders = list(itertools.permutations(range(n_jobs))) if tier == "thorough" else [tuple(range(n_jobs)), tuple(reversed(range(n_jobs)))]
+            for order in orders:
+                for batch in (False, True):
+                    cases += 1
+                    try:
+                        why = run(n_jobs, limit, order, batch)
+                    except Exception as ex:
+                        why = f"raised {ex!r}"
+                    if why:
+                        fails.append(dict(args=dict(jobs=n_jobs, max_concurrent_jobs=limit, completion_order=order, batch=batch), failed="limiter", clause=why))
+                    if len(fails) >= 3:
+                        break
+    return dict(function="cirq-google/cirq_google/engine/processor_sampler.py:ProcessorSampler[concurrency limiter, scripted schedules]", case="sampler-limiter",
+                bound="2-4 jobs x limits 1-3 x completion orders (2 in quick, all in thorough) x run_async / run_batch_async on a scripted backend", cases=cases, distinct=cases,
+                failures=len(fails), exhaustive=False, _fails=fails[:2])
+standin_sampler_limiter.prop = "C20"
+
+STANDINS = [standin_collector_schedules, standin_sampler_limiter]
 
 
 def _replay_collector(ob, seed):
